@@ -31,7 +31,8 @@ CONFIGS = {
                  "incremental/nightly-incrsan,incremental-map/im"], "", CRATES[:2]),
     "miny": (["-p", "incremental", "-p", "incremental-map", "--features",
               "incremental/nightly-miny,incremental-map/im"], "", CRATES[:2]),
-    "plain": (["-p", "incremental", "-p", "incremental-map"], "", CRATES[:2]),
+    # without the macros crate, i.e. without the `slotmap` feature that it switches on in the core crate
+    "plain": (["-p", "incremental", "-p", "incremental-map", "--features", "incremental-map/im"], "", CRATES[:2]),
 }
 QUICK_CONFIGS = ["dbg", "rel"]
 THOROUGH_CONFIGS = ["dbg", "rel", "incrsan", "miny", "plain"]
@@ -102,7 +103,9 @@ def extract(config, repo=None, log=sys.stderr, thash=None):
     repo = repo or REPO
     if thash is None:
         thash, _ = tree_hash(repo)
-    out = os.path.join(WORK, "facts", thash, config)
+    _args, _flags, _ = CONFIGS[config]
+    cfg_key = hashlib.sha256((" ".join(_args) + "|" + _flags).encode()).hexdigest()[:8]
+    out = os.path.join(WORK, "facts", thash, "%s-%s" % (config, cfg_key))
     done = os.path.join(out, "DONE")
     if os.path.exists(done):
         return out
